@@ -81,6 +81,25 @@ theorem array_center_of_arrayExtent (s0 s1 o0 o1 : Int) :
     arrayCenter (arrayExtent s0 s1 o0 o1) = (o0, o1) := by
   rw [arrayExtent_eq, arrayCenter_eq]; simp only [Prod.mk.injEq]; omega
 
+/-- the NumPy statement `self.data[self_slice] * other.data[other_slice]` is well-formed whenever the (valid) extents intersect:
+both slices are non-empty, inside their arrays, and of equal shape (the model reads the shape from the first slice and only
+the start of the second, so this is stated separately) -/
+theorem mul_slices_wellformed (a b : Extent) (ha : a.rmin ≤ a.rmax ∧ a.cmin ≤ a.cmax) (hb : b.rmin ≤ b.rmax ∧ b.cmin ≤ b.cmax)
+    (h : intersect a b = true) :
+    (0 ≤ (intersectionSlices a b).1.1.1 ∧ (intersectionSlices a b).1.1.1 < (intersectionSlices a b).1.1.2 ∧
+      (intersectionSlices a b).1.1.2 ≤ a.nrow) ∧
+    (0 ≤ (intersectionSlices a b).1.2.1 ∧ (intersectionSlices a b).1.2.1 < (intersectionSlices a b).1.2.2 ∧
+      (intersectionSlices a b).1.2.2 ≤ a.ncol) ∧
+    (0 ≤ (intersectionSlices a b).2.1.1 ∧ (intersectionSlices a b).2.1.1 < (intersectionSlices a b).2.1.2 ∧
+      (intersectionSlices a b).2.1.2 ≤ b.nrow) ∧
+    (0 ≤ (intersectionSlices a b).2.2.1 ∧ (intersectionSlices a b).2.2.1 < (intersectionSlices a b).2.2.2 ∧
+      (intersectionSlices a b).2.2.2 ≤ b.ncol) ∧
+    (intersectionSlices a b).1.1.2 - (intersectionSlices a b).1.1.1 = (intersectionSlices a b).2.1.2 - (intersectionSlices a b).2.1.1 ∧
+    (intersectionSlices a b).1.2.2 - (intersectionSlices a b).1.2.1 = (intersectionSlices a b).2.2.2 - (intersectionSlices a b).2.2.1 :=
+  slices_wellformed a b ha hb h
+example : intersect ⟨-1, 0, -1, 0⟩ ⟨0, 1, 0, 2⟩ = true ∧
+    intersectionSlices ⟨-1, 0, -1, 0⟩ ⟨0, 1, 0, 2⟩ = (((1, 2), (1, 2)), ((0, 1), (0, 1))) := by decide
+
 /-! ## Products -/
 section mul
 variable {K : Type} [MulZeroClass K]
@@ -288,6 +307,18 @@ theorem reduce_no_common_pixel (fs : List (Fld K)) (hpos : ∀ f ∈ fs, 0 < f.a
   intro hh; apply h
   rw [Bool.and_eq_true, Extent.inb_iff_mem, Extent.inb_iff_mem]; exact hh
 
+/-- `reduce_disjoint` in `List.Pairwise` / `Extent.inb` form (the form consumed by C07/C03): no pixel of the plane lies in
+two of the reduced fields -/
+theorem reduce_pairwise_disjoint (data : List (Fld K)) (hpos : ∀ f ∈ data, 0 < f.arr.s0 ∧ 0 < f.arr.s1)
+    (gs : List (Fld K)) (hred : reduce data = gs.map some) :
+    gs.Pairwise (fun a b => ∀ r c, ¬(a.extent.inb r c = true ∧ b.extent.inb r c = true)) := by
+  rw [List.pairwise_iff_getElem]
+  intro i j hi hj hij r c hh
+  have h := not_intersect_inb _ _ (reduce_disjoint data hpos gs hred i j hij hj) r c
+  rw [Bool.eq_false_iff] at h
+  apply h
+  rw [Bool.and_eq_true]; exact hh
+
 /-- **reduce preserves the total**: at every pixel of the infinite plane the sum of the embeddings of the output fields
 equals the sum of the embeddings of the input fields (same hypotheses) -/
 theorem reduce_total (fs : List (Fld K)) (hpos : ∀ f ∈ fs, 0 < f.arr.s0 ∧ 0 < f.arr.s1)
@@ -358,6 +389,18 @@ theorem insert_emb (f : Fld K) (out : Arr K) (w : K) (post : K → K) (i j : Int
     by_cases hb : (arrayExtent f.arr.s0 f.arr.s1 f.o0 f.o1).inb (i - out.s0 / 2) (j - out.s1 / 2) = true
     · rw [if_pos hb, if_pos hb]; rfl
     · rw [if_neg hb, if_neg hb, add_zero]
+
+/-- the NumPy statement `out[out_slice] += field.data[field_slice]` is well-formed whenever `insert` reaches it: both
+slices are non-empty, inside their arrays and of equal shape — for every field shape, offset and target shape (the model
+`insertArr` reads only the slice starts, so the slice *stops* of the source are pinned down here) -/
+theorem insert_slices_wellformed (s0 s1 o0 o1 S0 S1 : Int) (orow ocol frow fcol : Int × Int)
+    (h : Gen.insertIdx s0 s1 o0 o1 S0 S1 = some ((orow, ocol), (frow, fcol))) :
+    (0 ≤ orow.1 ∧ orow.1 < orow.2 ∧ orow.2 ≤ S0) ∧ (0 ≤ ocol.1 ∧ ocol.1 < ocol.2 ∧ ocol.2 ≤ S1) ∧
+    (0 ≤ frow.1 ∧ frow.2 ≤ s0) ∧ (0 ≤ fcol.1 ∧ fcol.2 ≤ s1) ∧
+    frow.2 - frow.1 = orow.2 - orow.1 ∧ fcol.2 - fcol.1 = ocol.2 - ocol.1 :=
+  insertIdx_wellformed s0 s1 o0 o1 S0 S1 orow ocol frow fcol h
+/-- non-vacuity: a 4×3 field at (−2, 2) in a 3×4 target is clipped at the top and on the right -/
+example : Gen.insertIdx 4 3 (-2) 2 3 4 = some (((0, 1), (3, 4)), ((3, 4), (0, 1))) := by decide
 
 /-- the shape of the target never changes -/
 theorem insert_shape (f : Fld K) (out : Arr K) (w : K) (post : K → K) :
